@@ -444,3 +444,43 @@ Proof.
   - rewrite B1. now apply stride_concat.
   - intros. now apply field_shift_app_through_fold.
 Qed.
+
+(* ------------------------------------------------------------------------------------------ *)
+(** * the representations agree sample for sample wherever both are evaluated *)
+
+Section Agree.
+Variable S : Scalar.
+Hypothesis Sring : is_ring S.
+Hypothesis Skernel : kernel_laws S.
+Variable sq : Qc -> S.
+
+(* Representation 1: the ramp in the OPD, no tilt metadata (shift (0,0)), any output box / propagation shape.
+   Representation 2 (Tilt plane anywhere in the chain) and 3 (Wavefront(tilt=[a, b])): the plain field with the
+   metadata [Tilt(x=a, y=b)], any (other) output box / propagation shape.
+   Two samples at the same plane coordinate carry the same value. *)
+Theorem representations_agree (f : arr S) a b dxr dxc dur duc wl z os offr offc
+        oe Pr Pc Ir Ic isr isc shr shc oe' Pr' Pc' Ir' Ic' isr' isc' shr' shc' sr sc i j i' j' :
+  dur <> 0 -> duc <> 0 -> wl <> 0 -> z <> 0 -> os <> 0 ->
+  (0 < Pr)%Z -> (0 < Pc)%Z -> (0 < Pr')%Z -> (0 < Pc')%Z ->
+  tilted_window oe Pr Pc 0 0 = Some ((Ir, Ic), (isr, isc), (shr, shc)) ->
+  field_shift [mk_tilt a b] z wl (Some (dur, duc)) os IJ = Ok (sr, sc) ->
+  tilted_window oe' Pr' Pc' sr sc = Some ((Ir', Ic'), (isr', isc'), (shr', shc')) ->
+  (0 <= i < Ir)%Z -> (0 <= j < Ic)%Z -> (0 <= i' < Ir')%Z -> (0 <= j' < Ic')%Z ->
+  let ie := intersection_extent oe (array_extent Pr Pc (qfix 0) (qfix 0)) in
+  let ie' := intersection_extent oe' (array_extent Pr' Pc' (qfix sr) (qfix sc)) in
+  (i + fst (fst (fst ie)) = i' + fst (fst (fst ie')))%Z -> (j + snd (fst ie) = j' + snd (fst ie'))%Z ->
+  get (dft2 sq (ramped S f a b dxr dxc wl offr offc)
+         (dft_alpha dxr dur wl z os) (dft_alpha dxc duc wl z os) Ir Ic shr shc offr offc true) i j
+  = get (dft2 sq f (dft_alpha dxr dur wl z os) (dft_alpha dxc duc wl z os) Ir' Ic' shr' shc' offr offc true) i' j'.
+Proof.
+  intros H1 H2 H3 H4 H5 P1 P2 P3 P4 W1 Hs W2 Hi Hj Hi' Hj' ie ie' Er Ec.
+  rewrite field_shift_single in Hs. injection Hs as <- <-.
+  rewrite (propagate_tilt_samples S Sring Skernel sq _ _ _ offr offc oe Pr Pc 0 0 Ir Ic isr isc shr shc i j P1 P2 W1 Hi Hj).
+  rewrite (propagate_tilt_samples S Sring Skernel sq _ _ _ offr offc oe' Pr' Pc' _ _ Ir' Ic' isr' isc' shr' shc' i' j' P3 P4 W2 Hi' Hj').
+  fold ie ie'. rewrite Er, Ec.
+  rewrite (ramp_is_shift S Sring Skernel) by assumption. f_equal. f_equal; ring.
+Qed.
+
+Lemma wavefront_tilt_is_tilt_plane a b : wavefront_tilt (Some [a; b]) = Ok [mk_tilt a b].
+Proof. reflexivity. Qed.
+End Agree.
